@@ -125,11 +125,22 @@ Definition allow_ok (L : list (list string)) (d out : obj) : bool :=
 Definition deny_ok (L : list (list string)) (d out : obj) : bool :=
   forallb (deny_at_b L (JObj d) (JObj out)) (probe_paths L (JObj d) (JObj out)).
 
+(* ---- allow lists that are NOT prefix-free (outside the quantifier, exact semantics) ----
+   newAllowlistingFilter inserts the paths in the configured order; inserting q discards every
+   earlier path comparable with q: a longer one below q (the leaf q overwrites that sub-tree)
+   and a shorter one above q (buildDictPath replaces that leaf by a node).  What is left - the
+   effective list - is prefix-free, and the filter is exactly the projection onto it.  For a
+   prefix-free list the effective list has the same elements as the list. *)
+Definition incomparable (q l : list string) : bool := negb (prefix q l) && negb (prefix l q).
+Definition effective_step (acc : list (list string)) (q : list string) : list (list string) :=
+  (filter (incomparable q) acc ++ [q])%list.
+Definition effective (L : list (list string)) : list (list string) :=
+  fold_left effective_step L [].
+
 (* filter stage: t = the extracted target, f = what the implementation produced *)
 Definition filter_ok (c : cfg) (t f : obj) : bool :=
   if is_nil (allow c) then deny_ok (map split_dot (deny c)) t f
-  else let L := map split_dot (allow c) in
-       if prefix_free_b L then allow_ok L t f else true.   (* outside the quantifier *)
+  else allow_ok (effective (map split_dot (allow c))) t f.
 
 Definition mapping_ok (mp : list (string * string)) (f inner : obj) : bool :=
   if names_distinct_b mp then
